@@ -313,6 +313,24 @@ def run(chk):
                 if len([d for d in chk.disagreements if d['op'] == op]) < 5:
                     chk.disagreements.append({'op': op, 'line': l, 'impl': im, 'model': m, 'case': obj_of(a, kw)})
 
+    # global rules parsed by the CONCRETE model of parse_static_mods (C12's Model/StaticMods.lean) instead of the wire
+    pc = [c for c in cases if c[0]._static_mods is not None][:400 if tier == 'quick' else 8000]
+    outs = chk.driver(DRV, [cm.line('mass', a, kw, concrete_rules=True) for a, kw in pc])
+    st = chk.corr.setdefault('mass_concrete_rule_parser', {'evaluations': 0, 'disagreements': 0, 'samples': [], 'unmodelled': 0})
+    for (a, kw), m in zip(pc, outs):
+        if m == 'ERR:unmodelled':
+            st['unmodelled'] += 1
+            continue
+        im = cm.call(pt.mass, a, kw)
+        st['evaluations'] += 1
+        chk.evaluations += 1
+        if im.startswith('ok'):
+            chk.nontrivial.add('massP|' + annot.dump(a) + repr(sorted(kw.items(), key=str)))
+        if not cm.cmp_float(im, m, tol_of(kw)):
+            st['disagreements'] += 1
+            if len([d for d in chk.disagreements if d['op'] == 'mass_concrete_rule_parser']) < 5:
+                chk.disagreements.append({'op': 'mass_concrete_rule_parser', 'line': annot.dump(a), 'impl': im, 'model': m, 'case': obj_of(a, kw)})
+
     # string inputs (sequence_to_annotation in front of the same code): mass(str) / mz(str) vs the model on parse(str)
     scases = []
     for a, kw in cases[:: max(1, len(cases) // 300)]:
